@@ -307,3 +307,21 @@ Theorem verify_refinement_entry_abstraction_injective :
     In p ids -> In q ids -> MachineEntry.gen_id ids p = MachineEntry.gen_id ids q -> p = q.
 Proof. exact VerifyRefine.gen_id_injective. Qed.
 Print Assumptions verify_refinement_entry_abstraction_injective.
+
+(** after any reset of the sync state (Close/Open, a new process, ResetLocalState since a3c8cc9 —
+    entry machine_reset compares the implementation's state after every reset of the harness with the
+    zero state) the only incremental answer is "same generation, from the cursor, frame in front of the
+    cursor recognised", whatever baseline the level-0 chain was cut back to *)
+Theorem verify_after_reset_incremental_only_same_generation : forall ps pos last w fd info,
+  verify ps pos last false 0 (Some w) fd = VOk info -> i_snap info = false ->
+  let off := l_off last + l_size last in
+  let fsz := ps + WALFrameHeaderSize in
+  off <= N.of_nat (length w) /\
+  N.eqb (be32 w 16) (l_s1 last) && N.eqb (be32 w 20) (l_s2 last) = true /\
+  i_offset info = off /\
+  (off = WALHeaderSize \/ off - fsz = WALHeaderSize \/
+   exists d, fd = Some d /\
+     last_page_match last (be32 w (N.to_nat (off - fsz))) (be32 w (N.to_nat (off - fsz) + 8))
+                     (be32 w (N.to_nat (off - fsz) + 12)) d = true).
+Proof. exact VerifyRefine.verify_fresh_incremental_only_same_generation_lemma. Qed.
+Print Assumptions verify_after_reset_incremental_only_same_generation.
